@@ -179,6 +179,26 @@ pub fn build(p: &P) -> Cmd {
                 }
             });
         }),
+        P::JoinReq(s, t, m) => Command::new(move |ctx| async move {
+            let jh = ctx.spawn(move |ctx| async move {
+                let v = areq(&ctx, s, 0).await;
+                ctx.send_event(Event::got(s, v));
+            });
+            let ((), w) = futures::join!(jh, areq(&ctx, t, 0));
+            ctx.send_event(Event::got(t, w));
+            ctx.send_event(Event::mark(m, 0));
+        }),
+        P::SelectJoinReq(s, t, m) => Command::new(move |ctx| async move {
+            let jh = ctx.spawn(move |ctx| async move {
+                let v = areq(&ctx, s, 0).await;
+                ctx.send_event(Event::got(s, v));
+            });
+            let r = Box::pin(areq(&ctx, t, 0));
+            match futures::future::select(jh, r).await {
+                Either::Left(((), _loser)) => ctx.send_event(Event::mark(m, 0)),
+                Either::Right((w, _jh)) => ctx.send_event(Event::got(t, w)),
+            }
+        }),
         P::JoinTwice(s, m) => Command::new(move |ctx| async move {
             let jh = ctx.spawn(move |ctx| async move {
                 let v = areq(&ctx, s, 0).await;
